@@ -183,6 +183,8 @@ def _two_gen_fields(ex):
         d.items[nm] = (z3.BoolVal(True), ex.world.models["ParserField"].fresh(
             ex, "gfld_" + nm, **{"required": BOOL, "no_input": BOOL, "no_output": BOOL, "mode": NONE, "final": BOOL, "default": OBJ,
                                  "default_factory": NONE, "dependencies": NONE}))
+    # the first field can also be given under a second input name (alias_from)
+    d.items["f1"][1].fields["all_aliases"] = VTup([VStr("f1"), VStr("x1")])
     return d
 
 
@@ -259,6 +261,9 @@ def _gd_post(case):
             d["%s_required_iff_absence_is_an_error" % f] = "required_lists(result, '%s') == ((%s) and (%s))" % (f, listed, req)
         else:
             d["%s_required_in_output" % f] = "required_lists(result, '%s') == ((%s) and ((%s) or not %s.no_default))" % (f, listed, req, fx)
+    if on == "input":
+        # `the listed properties are exactly the names accepted as input`: f1 is also accepted under its second input name x1
+        d["every_accepted_input_name_is_listed"] = "implies(prop_listed(result, 'f1'), prop_listed(result, 'x1'))"
     if an == "addition-none":
         d["no_additionalProperties_key"] = "not schema_has(result, 'additionalProperties')"
     else:
